@@ -45,6 +45,9 @@ pub enum Op {
     /// make an area executable, run `mov eax, imm1` there, overwrite only the immediate (API write or
     /// guest store), run it again: the second run must see the new bytes
     CodePatch { start: u64, off: u64, imm1: u32, imm2: u32, guest: bool },
+    /// C07: the machine runs its last NOP and finishes; the register file stays usable ("the state may be
+    /// inspected and changed after execution")
+    Finish,
 }
 
 #[derive(Serialize, Deserialize, Clone, Debug, PartialEq)]
@@ -229,6 +232,7 @@ struct Ex<'a> {
     /// C08: address -> byte most recently written there through any path, independent of the area
     /// structure (entries are dropped when their address stops being mapped)
     flat: std::collections::BTreeMap<u64, u8>,
+    finished_on_purpose: bool,
 }
 
 enum R<T> {
@@ -891,6 +895,23 @@ impl<'a> Ex<'a> {
         self.prot(start, old_prot);
     }
 
+    fn finish(&mut self) {
+        let last = self.code_start + self.t.code.len() as u64 - 1;
+        let _ = self.ax.reg_write_64(SupportedRegister::RIP, last);
+        let out = do_step(&mut self.ax);
+        self.ctx.guest_steps += 1;
+        self.finished_on_purpose = true;
+        self.ctx.event(&format!("finish:{}", self.ax.verif_finished()), "");
+        if !matches!(out, StepOut::Ok(_)) || !self.ax.verif_finished() {
+            self.ctx.harness_errors.push(format!("E1 finish step did not finish the machine: {out:?}"));
+        }
+        self.ctx.fault("register_api_after_finish");
+        let o = Model::from_ax(&self.ax);
+        self.m.gpr = o.gpr;
+        self.m.rip = o.rip;
+        self.m.xmm = o.xmm;
+    }
+
     fn guest_fetch(&mut self, addr: u64) {
         let _ = self.ax.reg_write_64(SupportedRegister::RIP, addr);
         self.m.rip = addr;
@@ -1305,7 +1326,7 @@ pub fn run(_prop: &str, sc: &Sc, ctx: &mut Ctx) {
         ctx.dev("C09", "C09|constructor|code_permissions".into(), format!("code area after new(): {:?}", m.areas.iter().map(|a| (a.start, a.len, a.prot)).collect::<Vec<_>>()));
     }
     // C07: initial contents come through the RNG seam: low 32 bits only for GPRs (documented behaviour)
-    let mut ex = Ex { ax, m, t, code_start: sc.code_start, ctx, overlapping: false, flat: std::collections::BTreeMap::new() };
+    let mut ex = Ex { ax, m, t, code_start: sc.code_start, ctx, overlapping: false, flat: std::collections::BTreeMap::new(), finished_on_purpose: false };
     for op in sc.ops.iter() {
         ex.ctx.nontrivial = true;
         // asking for more memory than a host has is outside the properties (and ax allocates before it validates)
@@ -1346,8 +1367,9 @@ pub fn run(_prop: &str, sc: &Sc, ctx: &mut Ctx) {
             Op::GuestRet { rsp } => ex.guest_stack("ret", *rsp, 0),
             Op::GuestFetch { addr } => ex.guest_fetch(*addr),
             Op::CodePatch { start, off, imm1, imm2, guest } => ex.code_patch(*start, *off, *imm1, *imm2, *guest),
+            Op::Finish => ex.finish(),
         }
-        if ex.ax.verif_finished() {
+        if ex.ax.verif_finished() && !ex.finished_on_purpose {
             // a template ran into the end of the code: cannot happen by construction
             ex.ctx.harness_errors.push("E1 machine finished".into());
             break;
